@@ -215,6 +215,12 @@ def directed_cases():
 	# file names outside ASCII (import names are string literals of the DSL; the file system gets the same characters)
 	E, F, G = 'tüpes.cats', 'схема/типы.cats', 'sub/名前.cats'
 	cases.append(('non-ascii-names', A, {A: ok_file(imp(E), imp(F), da), E: ok_file(imp(G), db), F: ok_file(dc), G: ok_file(dd)}))
+	# files whose paths differ only in letter case are different files (the tool runs on case sensitive file systems): a file name, a
+	# directory name, each importing its twin
+	T1, T2, R1, R2, M1, M2 = 'types.cats', 'Types.cats', 'state/Restrictions.cats', 'state/restrictions.cats', 'Mosaic/types.cats', 'mosaic/types.cats'
+	cases.append(('names-differing-in-letter-case', A, {A: ok_file(imp(T1), imp(T2), imp(R1), imp(R2), da), T1: ok_file(db), T2: ok_file(imp(T1), dc),
+		R1: ok_file(dd), R2: ok_file(imp(R1), decl('TyE'))}))
+	cases.append(('directories-differing-in-letter-case', A, {A: ok_file(imp(M1), imp(M2), da), M1: ok_file(db, decl('TyB2')), M2: ok_file(imp(M1), dc)}))
 	out = []
 	# every validation fault family in the root, in a mid-level file and in a leaf; plain YAML output for the root position,
 	# a working generator for the mid-level one, a failing generator for the leaf (validation comes first: still 2, nothing written)
@@ -235,7 +241,27 @@ def directed_cases():
 			for boom in BOOM_GENERATORS[1:]:
 				out.append({'name': f'directed:{name}:generation-fails:{boom}', 'root': root, 'files': files, 'flags': 'gen_boom', 'boom': boom,
 					'cli': True, 'directed': True})
+	for case in out:
+		# a file of the same relative name as every import (present or dangling) below the working directory of the `cwd=subdir` runs
+		case['decoys'] = import_names(case['files'])
 	return out
+
+
+def import_names(files):
+	names = []
+	for spec in files.values():
+		for item in (spec['items'] if spec['kind'] == 'ok' else []):
+			if item[0] == 'import' and item[1] not in names and not os.path.isabs(item[1]):
+				names.append(item[1])
+	return names
+
+
+def respell_case(rng, path):
+	"""the same path with the letter case of one component changed (a directory, or the first letter of the file name)"""
+	parts = path.split('/')
+	index = rng.randrange(len(parts))
+	parts[index] = parts[index][0].swapcase() + parts[index][1:]
+	return '/'.join(parts)
 
 
 def random_case(rng, number):
@@ -245,6 +271,8 @@ def random_case(rng, number):
 	while len(paths) < count:
 		# base names repeat across directories now and then: a file's identity is its whole path
 		candidate = f'{rng.choice(dirs)}f{rng.randrange(count) if rng.randrange(4) == 0 else len(paths)}.cats'
+		if paths and rng.randrange(8) == 0:
+			candidate = respell_case(rng, rng.choice(paths))     # ... up to letter case: `sub/f1.cats` and `Sub/f1.cats` are two files
 		if candidate not in paths:
 			paths.append(candidate)
 	style = rng.choice(['chain', 'diamond', 'dag', 'dag', 'cyclic', 'cyclic', 'cyclic-root', 'dense'])
@@ -336,8 +364,10 @@ def random_case(rng, number):
 		rng.choice(structs)['post_ok'] = False
 	root = paths[0] if fault != 'missing-root' else 'absent.cats'
 	flags = rng.choice(['yaml', 'yaml', 'yaml', 'gen_ok', 'gen_boom', 'none'])
+	# files of the same relative names as some imports - every dangling one - below the directory some runs are started from
+	decoys = [name for name in import_names(files) if name not in files or rng.randrange(3) == 0]
 	return {'name': f'random:{style}:{fault}', 'root': root, 'files': files, 'flags': flags, 'cli': False, 'directed': False,
-		'boom': rng.choice(BOOM_GENERATORS)}
+		'boom': rng.choice(BOOM_GENERATORS), 'decoys': decoys}
 
 
 def gen_cases(rng, tier):
@@ -464,6 +494,23 @@ def materialise(case, directory):
 		target.parent.mkdir(parents=True, exist_ok=True)
 		target.write_text(render_file(spec), encoding='utf8', newline='')
 	(directory / 'wd_sub').mkdir(exist_ok=True)
+	# decoys: well-formed files that are NOT part of the schema set (imports are rooted at the include directory, never at the directory
+	# the tool is started from); they sit below wd_sub/, the working directory of the `cwd=subdir` variants
+	for index, path in enumerate(case.get('decoys') or []):
+		target = directory / 'wd_sub' / path
+		target.parent.mkdir(parents=True, exist_ok=True)
+		target.write_text(f'using DecoyTy{index} = uint8\n', encoding='utf8', newline='')
+
+
+def letter_case_matters(directory):
+	"""the scratch file system keeps `x` and `X` apart (else graphs with names that differ in letter case only cannot be materialised)"""
+	probe = Path(directory) / 'CaseProbe'
+	probe.mkdir(parents=True, exist_ok=True)
+	(probe / 'a.txt').write_text('lower', encoding='utf8')
+	(probe / 'A.txt').write_text('upper', encoding='utf8')
+	distinct = (probe / 'a.txt').read_text(encoding='utf8') == 'lower'
+	shutil.rmtree(probe, ignore_errors=True)
+	return distinct
 
 
 def class_parse(include, root):
@@ -773,6 +820,9 @@ def run(check, unrecognised):
 	cases = gen_cases(check.rng, check.tier)
 	base = common.scratch_dir('c17')
 	try:
+		if not letter_case_matters(base):
+			check.notes.append('the scratch file system folds letter case: graphs with paths that differ in letter case only are left out')
+			cases = [case for case in cases if len({path.casefold() for path in case['files']}) == len(case['files'])]
 		results = run_cases(cases, base)
 		models = coq_eval(IMPORTS, [model_expr(case) for case in cases], 'c17')
 		shrunk = 0
